@@ -63,7 +63,15 @@ func NewNtfnsHandler(w *WalletManager) (*NtfnsHandler, error) {
 	var syncedTo *txmgr.BlockMeta
 	err := mwdb.View(w.db, func(tx mwdb.ReadTransaction) (err error) {
 		syncedTo, err = w.syncStore.SyncedTo(tx)
-		return err
+		if err != nil {
+			return err
+		}
+		wss, err := w.syncStore.GetAllWalletStatus(tx)
+		if err != nil {
+			return err
+		}
+		h.taskChan = NewWalletTaskChan(len(wss))
+		return nil
 	})
 	if err != nil {
 		return nil, err
@@ -756,7 +764,6 @@ func worker(h *NtfnsHandler) {
 		if err != nil {
 			return err
 		}
-		h.taskChan = NewWalletTaskChan(len(wss))
 		for _, ws := range wss {
 			logging.CPrint(logging.DEBUG, "wallet status",
 				logging.LogFormat{
